@@ -204,12 +204,12 @@ class HistoryFailure(Exception):
 
 
 class History:
-    def __init__(self, chk, llb, model, seed, idx):
+    def __init__(self, chk, llb, model, seed, idx, root):
         self.chk, self.llb, self.model = chk, llb, model
         self.seed = seed
         self.rng = random.Random(seed)
-        self.S = os.path.join(BASE, "h%d" % idx)
-        self.C = os.path.join(BASE, "h%d.clean" % idx)
+        self.S = os.path.join(root, "h%d" % idx)
+        self.C = os.path.join(root, "h%d.clean" % idx)
         shutil.rmtree(self.S, ignore_errors=True)
         os.makedirs(self.S)
         self.P = gen_project(self.rng)
@@ -729,14 +729,26 @@ class History:
 
 # --------------------------------------------------------------------------------------------- entry points
 
-def run_histories(chk, seeds):
-    llb = vlib.llbuild_bin()
-    model = vlib.Interactive(vlib.model_bin("bsys"))
+def private_llbuild():
+    """A private copy of the binary: other checks may relink _work/b-hooks/bin/llbuild while the histories run."""
+    src = vlib.llbuild_bin()
     os.makedirs(BASE, exist_ok=True)
+    dst = os.path.join(BASE, "llbuild.%d" % os.getpid())
+    with vlib.Lock("build-hooks"):
+        shutil.copy2(src, dst)
+    return dst
+
+
+def run_histories(chk, seeds):
+    llb = private_llbuild()
+    model = vlib.Interactive(vlib.model_bin("bsys"))
+    root = os.path.join(BASE, "run-%d" % os.getpid())       # concurrent runs of this check do not share sandboxes
+    shutil.rmtree(root, ignore_errors=True)
+    os.makedirs(root)
     kinds = {}
     try:
         for idx, seed in enumerate(seeds):
-            h = History(chk, llb, model, seed, idx)
+            h = History(chk, llb, model, seed, idx, root)
             try:
                 h.run()
             except HistoryFailure as e:
@@ -755,6 +767,12 @@ def run_histories(chk, seeds):
                 shutil.rmtree(h.C, ignore_errors=True)
     finally:
         model.close()
+        try:
+            os.unlink(llb)
+            if not chk.violations:
+                shutil.rmtree(root, ignore_errors=True)
+        except OSError:
+            pass
     chk.cov["histories"] = len(seeds)
     chk.cov["operations_by_kind"] = kinds
 
